@@ -60,7 +60,8 @@ RULE = (
     "from pools of parametrised valid designs and of invalid designs that are rejected at different compiler "
     "stages, all executed in one interpreter; every result is compared with the result of a fresh interpreter "
     "compiling only that design with the same options. Non-trivial = a design accepted by the fresh interpreter is compiled after >= 1 "
-    "compile that was rejected, or after a compile of a different design (>= 2 designs interleaved); hash-seed cases "
+    "compile that was rejected, or after a compile of a different design (>= 2 designs interleaved), or after a "
+    "compile of the same design with different compile options; hash-seed cases "
     "(one design, fresh interpreters under >= 2 PYTHONHASHSEED values) are non-trivial when the design compiled "
     "under every seed. distinct = case hash"
 )
@@ -494,6 +495,7 @@ def check(case):
         out.exhaustive_cell = f"{case['space']}:{case['designs'][last[1]]['d']}.{last[2]}"
     seen_reject = False
     seen_options = False
+    seen_configs = set()
     seen_targets = set()
     reported = set()
     for k, (o, res) in _enumerate(list(zip(ops, results))):
@@ -523,6 +525,9 @@ def check(case):
             if seen_targets - {tkey}:
                 out.nontrivial = True
                 out.labels.append("valid_after_other_design")
+            if {c for c in seen_configs if c[0] == tkey and c[1] != _optkey(o)}:
+                out.nontrivial = True
+                out.labels.append("valid_after_same_design_with_other_options")
             elif tkey in seen_targets:
                 out.labels.append("valid_after_itself")
         v = _verdict(gold, res)
@@ -546,6 +551,7 @@ def check(case):
         if _optkey(o):
             seen_options = True
         seen_targets.add(tkey)
+        seen_configs.add((tkey, _optkey(o)))
     if results and any(r.get("dirty") for r in results[-1:]):
         out.labels.append("case_ends_with_dirty_state")
     return out
